@@ -41,7 +41,9 @@ def _params(kind):
     return dict(ST6WaveBreaking.default_parameters())
 
 
-def case_wind_input(ctx, nd, wind_dir, wtype):
+def case_wind_input(ctx, nd, wind_dir, wtype, prefilled=False):
+    """prefilled=True: the optional work array `wind_source` (reused by the roughness iteration across calls and
+    points) arrives with ARBITRARY previous content: the result must not depend on it"""
     mods = P.install(ctx)
     WI = mods["st4_wind_input"]
     g, f, deg = P.grid(ctx, 2, nd)
@@ -51,7 +53,8 @@ def case_wind_input(ctx, nd, wind_dir, wtype):
     U = ctx.real("U")
     ctx.assume(ctx.lt(0, U))
     pars = _params("wind")
-    out = WI._st4_wind_generation_point(E, (U, wind_dir, wtype), np.inf, z0, g, pars)
+    kw = dict(wind_source=ctx.reals("stale", (2, nd))) if prefilled else {}
+    out = WI._st4_wind_generation_point(E, (U, wind_dir, wtype), np.inf, z0, g, pars, **kw)
     ctx.reach("D-WIND")
     for i in range(2):
         for j in range(nd):
@@ -67,7 +70,10 @@ def case_wind_input(ctx, nd, wind_dir, wtype):
                       info="zero in bins without energy")
     # proportional to E at fixed roughness
     c = ctx.frac(3, 2)
-    out2 = WI._st4_wind_generation_point(E * c, (U, wind_dir, wtype), np.inf, z0, g, pars)
+    if prefilled:
+        out = out.copy()
+        kw = dict(wind_source=ctx.reals("stale2", (2, nd)))
+    out2 = WI._st4_wind_generation_point(E * c, (U, wind_dir, wtype), np.inf, z0, g, pars, **kw)
     for i in range(2):
         for j in range(nd):
             ctx.check(ctx.eq_value(out2[i, j], c * ctx.value(out[i, j])), "D-WIND.linear", info="rate(cE) == c rate(E)")
@@ -185,6 +191,62 @@ def _spectrum2(ctx, nf, nd, npts):
     depth = np.array([np.inf, 50.0][:npts]) if npts > 1 else np.array([np.inf])
     s = create_2d_spectrum(f, d, E, t, np.arange(npts) * 1.0, np.arange(npts) * 2.0, depth=depth)
     return s, E, f, d, depth
+
+
+def case_grid_forwarding(ctx, nf, nd):
+    """the spectral grid handed to the kernels is the grid of the spectrum being evaluated - also when ONE source term
+    object is used for two spectra in a row whose grids have the same size and end points but different directions
+    and interior frequencies (no state carried from one evaluation to the next)"""
+    mods = P.install(ctx)
+    from ocean_science_utilities.wavephysics.balance.st4_wind_input import ST4WindInput
+    from ocean_science_utilities.wavephysics.balance.st4_wave_breaking import ST4WaveBreaking
+    from ocean_science_utilities.wavespectra.spectrum import create_2d_spectrum
+    C.shim_modules(ctx)
+    seen = []
+
+    def gen_stub(variance_density, wind, depth, roughness_length, spectral_grid, parameters, wind_source=None):
+        seen.append(("g", spectral_grid))
+        return variance_density * 0
+
+    def diss_stub(variance_density, depth, spectral_grid, parameters):
+        seen.append(("d", spectral_grid))
+        return variance_density * 0
+
+    gen, diss = ST4WindInput(), ST4WaveBreaking()
+    gen._wind_source_term_function = gen_stub
+    diss._dissipation_function = diss_stub
+    fa = C.freq_grid(ctx, "nonuniform0", nf + 1)[1:]
+    fb = fa.copy()
+    fb[1] = (fa[0] + fa[1]) / 2                      # same first / last frequency, different interior node
+    da = C.dir_grid(ctx, "uniform0", nd)
+    db = C.dir_grid(ctx, "uniform_neg", nd)          # same number of directions, different values
+    t = np.array([C.T0])
+    spectra = []
+    for k, (f, d) in enumerate(((fa, da), (fb, db))):
+        E = P.nonneg(ctx, f"E{k}", (1, nf, nd))
+        spectra.append(create_2d_spectrum(f, d, E, t, np.zeros(1), np.zeros(1), depth=np.array([np.inf])))
+    U = xarray.DataArray(ctx.reals("U", (1,)), dims="time")
+    Dr = xarray.DataArray(np.array([30.0]), dims="time")
+    z0 = xarray.DataArray(ctx.reals("z0", (1,)), dims="time")
+    ctx.reach("D-GRID")
+    for which, sp in enumerate(spectra):
+        for nm, fn in (("gen.rate", lambda q: gen.rate(q, U, Dr, roughness_length=z0)),
+                       ("gen.bulk_rate", lambda q: gen.bulk_rate(q, U, Dr, roughness_length=z0)),
+                       ("diss.rate", lambda q: diss.rate(q)), ("diss.bulk_rate", lambda q: diss.bulk_rate(q))):
+            seen.clear()
+            fn(sp)
+            ctx.check(len(seen) >= 1, "D-GRID.called", info=nm)
+            for _, g in seen:
+                exp = dict(radian_frequency=sp.radian_frequency.values, radian_direction=sp.radian_direction.values,
+                           frequency_step=sp.frequency_step.values, direction_step=sp.direction_step.values)
+                for key, want in exp.items():
+                    got = np.asarray(g[key])
+                    ok = len(got) == len(want)
+                    ctx.check(ok, "D-GRID", info=dict(entry=nm, spectrum=which, key=key, what="length"))
+                    if ok:
+                        for a, b in zip(got, want):
+                            ctx.check(ctx.eq(a, b), "D-GRID", info=dict(entry=nm, spectrum=which, key=key,
+                                                                       what="kernel receives this spectrum's own grid"))
 
 
 def case_bulk_glue(ctx, nf, nd):
@@ -309,6 +371,11 @@ def cases(tier):
                 add("case_wind_input", f"wind_nd{nd}_dir{int(wd)}_{wt}", nd=nd, wind_dir=wd, wtype=wt,
                     opts=dict(weight=nd * 10))
         add("case_saturation", f"saturation_nd{nd}", nd=nd)
+        if nd == 3:
+            add("case_wind_input", "wind_nd3_dir100_u10_stale_work_array", nd=3, wind_dir=100.0, wtype="u10",
+                prefilled=True, opts=dict(weight=30))
+            add("case_wind_input", "wind_nd3_dir330_ustar_stale_work_array", nd=3, wind_dir=330.0,
+                wtype="friction_velocity", prefilled=True, opts=dict(weight=30))
         if nd == 3 or (not q and nd <= 5):     # nd=6 does not finish within 3000 s: outside the bound
             add("case_breaking_units", f"satbreak_nd{nd}", nd=nd, unit="saturation",
                 opts=dict(weight=nd * 20, case_timeout_s=280 if q else 3000))
@@ -318,6 +385,7 @@ def cases(tier):
     add("case_zero_spectrum", "zero_st6", kind="st6", nd=4)
     add("case_st6", "st6_nd3", nd=3, opts=dict(weight=30))
     add("case_bulk_glue", "bulk_glue_2x3", nf=2, nd=3, opts=dict(weight=30))
+    add("case_grid_forwarding", "grid_forwarding_3x4", nf=3, nd=4, opts=dict(weight=30))
     if not q:
         # case_whole_st4 (all three breaking units composed on a 2x3 grid) does not finish within 3000 s and is
         # not registered; the composition is covered by the per-unit cases plus bulk_glue
